@@ -458,6 +458,9 @@ class HTTP1Connection(httputil.HTTPConnection):
         # TODO: headers are supposed to be of type str, but we still have some
         # cases that let bytes slip through. Remove these native_str calls when those
         # are fixed.
+        for n, _ in headers.get_all():
+            if not httputil._ABNF.field_name.fullmatch(native_str(n)):
+                raise ValueError("Illegal header name: %r" % n)
         header_lines = (
             native_str(n) + ": " + native_str(v) for n, v in headers.get_all()
         )
